@@ -882,6 +882,8 @@ impl MultiTemplate {
             if let Some(t) = dbg {
                 t.cache_operation("FAST SPLIT", &format!("by '{sep}'"));
             }
+            #[cfg(feature = "verif-hooks")]
+            super::verif_hooks::bump(&super::verif_hooks::FAST_SPLIT);
             return Ok(self.fast_single_split(input, sep, range));
         }
 
@@ -894,6 +896,8 @@ impl MultiTemplate {
         };
 
         if let Some(cached) = cache.operations.get(&key) {
+            #[cfg(feature = "verif-hooks")]
+            super::verif_hooks::bump(&super::verif_hooks::MEMO_HIT);
             if let Some(t) = dbg {
                 t.cache_operation("CACHE HIT", "re-using formatted section");
             }
@@ -909,6 +913,8 @@ impl MultiTemplate {
         } else {
             None
         };
+        #[cfg(feature = "verif-hooks")]
+        super::verif_hooks::bump(&super::verif_hooks::MEMO_MISS);
         let out = apply_ops_internal(input, ops, self.debug, nested_dbg)?;
         cache.operations.insert(key, out.clone());
         Ok(out)
